@@ -22,10 +22,10 @@ import (
 const statePkg = "core/state"
 
 type c09Tables struct {
-	revertable map[*types.Var]string   // field -> key
-	mutators   map[*types.Func]string  // callee -> effect key
-	rawSetters map[*types.Func]bool    // functions that write without journaling by design
-	lifecycle  map[string]string       // function key -> reason
+	revertable map[*types.Var]string  // field -> key
+	mutators   map[*types.Func]string // callee -> effect key
+	rawSetters map[*types.Func]bool   // functions that write without journaling by design
+	lifecycle  map[string]string      // function key -> reason
 	append_    *types.Func
 	entryIface *types.Interface
 }
@@ -68,30 +68,30 @@ func c09tables(w *World) *c09Tables {
 
 	// Functions that write revertable state outside the journal for a stated reason.
 	t.lifecycle = map[string]string{
-		"core/state.newObject":                          "constructor: the object is not yet shared",
-		"(core/state.stateObject).deepCopy":             "copy constructor: writes the fresh copy only",
-		"(core/state.stateObject).Code":                 "lazy load of the code cache: no observable change",
-		"(core/state.stateObject).loadDelegations":      "lazy load of the delegation list cache: no observable change",
-		"(core/state.stateObject).finalise":             "end of transaction: moves dirty slots to pending after the journal is dropped",
-		"(core/state.StateDB).Copy":                     "copy constructor: writes the fresh copy only",
-		"(core/state.StateDB).Reset":                    "reset of the whole state object; clears the journal with it",
-		"(core/state.StateDB).clearJournalAndRefund":    "end of transaction: the journal is dropped together with the refund",
-		"(core/state.StateDB).getDeletedStateObject":    "load of an account into the live cache: no observable change",
-		"(core/state.StateDB).getValidator":             "load of a validator into the live cache: no observable change",
+		"core/state.newObject":                           "constructor: the object is not yet shared",
+		"(core/state.stateObject).deepCopy":              "copy constructor: writes the fresh copy only",
+		"(core/state.stateObject).Code":                  "lazy load of the code cache: no observable change",
+		"(core/state.stateObject).loadDelegations":       "lazy load of the delegation list cache: no observable change",
+		"(core/state.stateObject).finalise":              "end of transaction: moves dirty slots to pending after the journal is dropped",
+		"(core/state.StateDB).Copy":                      "copy constructor: writes the fresh copy only",
+		"(core/state.StateDB).Reset":                     "reset of the whole state object; clears the journal with it",
+		"(core/state.StateDB).clearJournalAndRefund":     "end of transaction: the journal is dropped together with the refund",
+		"(core/state.StateDB).getDeletedStateObject":     "load of an account into the live cache: no observable change",
+		"(core/state.StateDB).getValidator":              "load of a validator into the live cache: no observable change",
 		"(core/state.StateDB).createObject#raw:setNonce": "setNonce(0) on the object just constructed, before it is shared",
-		"(core/state.StateDB).CreateAccount":            "balance carried into the object just created by createObject, whose journal entry restores the whole previous object",
-		"(core/state.StateDB).updateValidator":          "flush to the trie at IntermediateRoot: index entry of a validator that is already live",
-		"(core/state.StateDB).deleteValidator":          "flush to the trie at IntermediateRoot after the journal was dropped",
-		"(core/state.StateDB).Finalise":                 "end of transaction: marks deleted objects after which the journal is dropped",
-		"core/state.New":                                "constructor",
-		"core/state.NewVldReader":                       "constructor",
-		"(core/state.Validator).PartialCopy":            "copy constructor: writes the fresh copy only",
-		"(core/state.WithdrawQueue).DeepCopy":           "copy constructor",
-		"(core/state.WithdrawQueue).DecodeRLP":          "decoder fills a fresh queue",
-		"(core/state.WithdrawQueue).RemoveRecords":      "the mutator itself",
-		"(core/state.ValidatorIndex).DeepCopy":          "copy constructor",
-		"(core/state.ValidatorIndex).DecodeRLP":         "decoder fills a fresh index",
-		"(core/state.StateDB).revertWithdrawQueue":      "undo helper of the withdraw journal entries",
+		"(core/state.StateDB).CreateAccount":             "balance carried into the object just created by createObject, whose journal entry restores the whole previous object",
+		"(core/state.StateDB).updateValidator":           "flush to the trie at IntermediateRoot: index entry of a validator that is already live",
+		"(core/state.StateDB).deleteValidator":           "flush to the trie at IntermediateRoot after the journal was dropped",
+		"(core/state.StateDB).Finalise":                  "end of transaction: marks deleted objects after which the journal is dropped",
+		"core/state.New":                                 "constructor",
+		"core/state.NewVldReader":                        "constructor",
+		"(core/state.Validator).PartialCopy":             "copy constructor: writes the fresh copy only",
+		"(core/state.WithdrawQueue).DeepCopy":            "copy constructor",
+		"(core/state.WithdrawQueue).DecodeRLP":           "decoder fills a fresh queue",
+		"(core/state.WithdrawQueue).RemoveRecords":       "the mutator itself",
+		"(core/state.ValidatorIndex).DeepCopy":           "copy constructor",
+		"(core/state.ValidatorIndex).DecodeRLP":          "decoder fills a fresh index",
+		"(core/state.StateDB).revertWithdrawQueue":       "undo helper of the withdraw journal entries",
 	}
 	return t
 }
